@@ -107,6 +107,14 @@ fn run_case(ctx: &numbat::Context, units: &Units, out: &mut Out, c: &Case, throu
             if t1 != t2 {
                 fail(out, "vm-display", format!("`a + b` displays `{}` but `b + a` displays `{}`", t1, t2));
             }
+            // the same two-operand sum written with the standard library's fold (`sum`), in both orders: it is
+            // `0 + a + b`, so it must display what `a + b` displays
+            let s1 = display(ctx, &format!("sum([{}, {}])", q_src(a), q_src(b)));
+            let s2 = display(ctx, &format!("sum([{}, {}])", q_src(b), q_src(a)));
+            out.count("vm_display_pairs_via_sum");
+            if s1 != s2 || s1 != t1 {
+                fail(out, "vm-display-sum", format!("`a + b` displays `{}`, `sum([a, b])` displays `{}`, `sum([b, a])` displays `{}`", t1, s1, s2));
+            }
         }
     }
     // three operands in all six orders
